@@ -121,7 +121,29 @@ func snapRun(session flows.Session, r flows.Run, redact bool, tree *node) *runSn
 
 // ---- Coq printing ---------------------------------------------------------------------------------
 
+// string table of the cases file being written: a string is elaborated by coqc once per file and referred to
+// by name afterwards (keys, kinds, schemes and digests repeat in every case)
+type interner struct {
+	names   map[string]string
+	pending []string
+}
+
+var strtab *interner
+
 func coqStr(s string) string {
+	if strtab == nil || len(s) < 2 {
+		return coqLit(s)
+	}
+	if n, ok := strtab.names[s]; ok {
+		return n
+	}
+	n := fmt.Sprintf("s%d", len(strtab.names))
+	strtab.names[s] = n
+	strtab.pending = append(strtab.pending, fmt.Sprintf("Definition %s : string := %s.", n, coqLit(s)))
+	return n
+}
+
+func coqLit(s string) string {
 	plainASCII := true
 	for i := 0; i < len(s); i++ {
 		if s[i] < 32 || s[i] > 126 {
@@ -178,7 +200,7 @@ func digest(n *node) string {
 	return hex.EncodeToString(h.Sum(nil))[:16]
 }
 
-func opq(n *node) string { return "(opq \"" + digest(n) + "\")" }
+func opq(n *node) string { return "(opq " + coqStr(digest(n)) + ")" }
 
 // structural conversion of an observed tree
 func xvGeneric(n *node) string {
@@ -359,13 +381,19 @@ type emitter struct {
 	bytes int
 }
 
-func newEmitter(o *hx.Opts, res *hx.Result) *emitter { return &emitter{o: o, res: res} }
+func newEmitter(o *hx.Opts, res *hx.Result) *emitter {
+	strtab = &interner{names: map[string]string{}}
+	return &emitter{o: o, res: res}
+}
 
 func (e *emitter) open() {
 	if e.file != nil {
 		return
 	}
 	name := fmt.Sprintf("cases_C19_%d_%d.v", e.o.Seed, e.shard)
+	saved := strtab
+	strtab = nil // the header is written with literals
+	defer func() { strtab = saved }()
 	var sb strings.Builder
 	sb.WriteString("From Coq Require Import List String Ascii ZArith NArith Bool.\nFrom Verif Require Import model.Redact model.RedactCorr.\nImport ListNotations.\nOpen Scope string_scope.\n")
 	fmt.Fprintf(&sb, "Definition schemes : list string := %s.\n", coqStrs(allSchemes()))
@@ -379,6 +407,11 @@ func (e *emitter) open() {
 func (e *emitter) add(term string, input any, impl any) {
 	e.open()
 	nm := fmt.Sprintf("c%d", len(e.names))
+	for _, d := range strtab.pending {
+		e.file.Add(d)
+		e.bytes += len(d)
+	}
+	strtab.pending = nil
 	e.file.Add(fmt.Sprintf("Definition %s : case := %s.", nm, term))
 	e.res.Cases = append(e.res.Cases, hx.Case{File: e.file.Name, Index: len(e.names), Input: input, Impl: impl})
 	e.names = append(e.names, nm)
@@ -398,6 +431,7 @@ func (e *emitter) flush() {
 	e.file = nil
 	e.bytes = 0
 	e.shard++
+	strtab = &interner{names: map[string]string{}} // names are per file
 }
 
 // addContext emits one case per run of the session at this observation point
